@@ -53,11 +53,12 @@ LEVEL_NOTE = ('Coq kernel + vm_compute; hand-written model of the code repaired 
               'is_symmetric(_at), is_dependent_on_input_at, is_output_equal_to_input(_negation), '
               'get_significant_inputs_of, find_negations_to_make_symmetric - and C12_circuit_protocol_regenerated '
               'proves each equal to the function run_query dispatches to for the Circuit class (g_* / circ_* on '
-              'circ_rep c) for every circuit with bool_valued c: no Undefined comes out of Boolean input vectors '
-              '(the generated code carries GateStates, tp.cast being the identity; the hand model reports an '
-              'Undefined as GateStateError) and T10\'s evaluators equal the model\'s (no gate is its own operand, or '
-              'the model does not run out of fuel); proved to hold whenever the circuit computes a function '
-              '(circuit_computes, the hypothesis of the query theorems) and for every WF circuit; the fuel '
+              'circ_rep c) for every circuit with fuel_ok c: T10\'s evaluators equal the model\'s (the model does not run out '
+              'of fuel on Boolean vectors, or no gate is its own operand; kernel-checked example of the difference '
+              'outside); proved to hold whenever the circuit computes a function (circuit_computes, the hypothesis of '
+              'the query theorems) and for every WF circuit. The generated code carries GateStates (tp.cast is the '
+              'identity) where the hand model converts to bools and would report an Undefined as GateStateError: '
+              'proved unobservable - for EVERY circuit no Undefined comes out of a Boolean input vector. The fuel '
               'parameters are those of the model\'s evaluators (Python has none); index_of_output is specified '
               'directly (first index). Circuit.evaluate / evaluate_at / get_truth_table are regenerated by T10 '
               '(C02), gates_number by T16 (C16). Not regenerated for C12: the static factories of PyFunction '
